@@ -324,6 +324,12 @@ def sig_multikey(inst):
     return False
 
 
+def wf_capacity(inst):
+    """hypotheses of C10_z3_capacity (wf_inst, wf_worker), on the extracted instance"""
+    return (chain_closed(inst) and not sig_multikey(inst) and all(t["remaining"] >= 0 for t in inst["tasks"])
+            and all(0 <= a <= tot for w in inst["workers"] for _, tot, a in w["res"]))
+
+
 def sig_same_worker_name(inst):
     names = [w["name"] for w in inst["workers"]]
     return len(names) != len(set(names))
@@ -422,6 +428,8 @@ def run(ctx):
         dist["offered"][len(inst["tasks"])] = dist["offered"].get(len(inst["tasks"]), 0) + 1
         dist["busy_workers"] += busyw
         dist["multikey"] += sig_multikey(inst)
+        dist["open_chain"] = dist.get("open_chain", 0) + (not chain_closed(inst))
+        dist["wf_for_capacity_theorem"] = dist.get("wf_for_capacity_theorem", 0) + wf_capacity(inst)
         # ---- returns normally
         if r["error"]:
             dist["errors"] += 1
@@ -494,7 +502,7 @@ def run(ctx):
             known_sig=lambda ins: not chain_closed(ins), known_name="open_chain")
     monitor("S-z3-capacity", "(fun p => capacity_ok (fst p) (asg_of (snd p)))", pts, where,
             "the demand of the tasks executing at some start instant exceeds a worker's available quantity in a feasible point",
-            known_sig=lambda ins: sig_multikey(ins) or not chain_closed(ins), known_name="FZ3-D")
+            known_sig=lambda ins: not wf_capacity(ins), known_name="FZ3-D")
     replay_known(ctx)
 
 
